@@ -382,6 +382,9 @@ func checkC11(c *Check) {
 	importRules(c, "C17", checkC17, "", "line-integrity")
 	// very long lines reach the processor whole: the pipe is read with an
 	// accumulating primitive (rules of C12)
+	// one pass of the dispatcher per line, one call of the selected function per pass (rules of C06)
+	nd1 := importRules(c, "C06", checkC06, "at-most-one-event: ", "line-dispatched-once")
+	c.Floor("imported line-dispatched-once obligations", 3, nd1)
 	nlf := importRules(c, "C12", checkC12, "long-lines-framed: ", "framing-primitive", "read-error-ends-delivery")
 	c.Floor("imported long-lines-framed obligations", 3, nlf)
 
@@ -715,6 +718,48 @@ func dischargeBounds(p *Prog, r *Resolver, rx map[string]*RegexVar, in ssa.Instr
 			}
 			if nsite > 0 {
 				return true, fmt.Sprintf("(i') at each of the %d call sites the slice is a nil-checked match of the pattern whose SubexpIndex of an existing group is the index", nsite)
+			}
+		}
+		// (v) the counter of a `for i := range s` loop (or an ascending
+		// scan from 0 below len(s)) indexing s itself; s may be read again
+		// from a package-level variable that is assigned once, in the
+		// package initialiser
+		if ok, _ := ascendingFromZero(r, x.Index, r.Of(x.X)); ok {
+			return true, "(v) loop counter of an ascending scan bounded by len() of the indexed slice"
+		}
+		if b, isB := x.Index.(*ssa.BinOp); isB {
+			if ph, isPhi := b.X.(*ssa.Phi); isPhi && ph.Comment == "rangeindex" {
+				// the loop condition compares the counter with len(<slice>)
+				sameSlice := func(v ssa.Value) bool {
+					if v == x.X {
+						return true
+					}
+					l1, ok1 := v.(*ssa.UnOp)
+					l2, ok2 := x.X.(*ssa.UnOp)
+					if ok1 && ok2 {
+						g1, isG1 := l1.X.(*ssa.Global)
+						g2, isG2 := l2.X.(*ssa.Global)
+						return isG1 && isG2 && g1 == g2 && p.globalStoreOnce(g1) != nil
+					}
+					return false
+				}
+				if rr := b.Referrers(); rr != nil {
+					for _, u := range *rr {
+						cmp, isCmp := u.(*ssa.BinOp)
+						if !isCmp || cmp.Op != token.LSS || cmp.X != ssa.Value(b) {
+							continue
+						}
+						if cl, isCall := cmp.Y.(*ssa.Call); isCall {
+							if bi, isBi := cl.Call.Value.(*ssa.Builtin); isBi && bi.Name() == "len" && len(cl.Call.Args) == 1 && sameSlice(cl.Call.Args[0]) {
+								for _, g := range GuardsOf(in) {
+									if g.Cond == ssa.Value(cmp) && g.True {
+										return true, "(v) range counter below len() of the indexed slice"
+									}
+								}
+							}
+						}
+					}
+				}
 			}
 		}
 		return false, "index " + r.Of(x.Index).String() + " is not bounded by a recognised idiom"
